@@ -2,6 +2,7 @@ CONSTANTS
   R = 9
   RT = 6
   WMax = 6
+  Broken = FALSE
   Gen = TRUE
 SPECIFICATION Spec
 INVARIANTS ThinCountsDown ThinErrorRange ThinErrIsCross ThinStepOK ThinDistOK ThinEndOK ThickRemBound ThickPrefixOK ThickEndOK ThickW1IsThin
